@@ -185,7 +185,7 @@ class Rules(LogicType.Rules):
             w = node.get('world')
             # Find other nodes with one of the identicals.
             for n in self[PredNodes][branch]:
-                if n is node:
+                if n is node or n.get('world') != w:
                     continue
                 s = self.sentence(n)
                 if pa in s.params:
